@@ -87,17 +87,17 @@ def binop_sets(A):
     vm = A.cls(VMMATH, 'VmMath')
     fn_table = A.fold(vm.class_attrs['_fn_table'], vm)
     op_f = A.func(VMMATH, 'VmMath.op')
+    # which handler op() reaches for each Operator member (conditions folded
+    # with the parameter bound to the member, so any if/elif/else shape works)
     logical = set()
-    for n in A.cfg(op_f).nodes:
-        if n.kind == 'cond' and isinstance(n.ast, ast.Compare):
-            v = A.try_fold(n.ast.comparators[0], op_f)
-            callees = []
-            for m, lab in n.succs:
-                if lab is True:
-                    for c in m.calls():
-                        callees += A.callee_names(op_f, c)
-            if 'VmMath.logical_op' in callees and isinstance(v, (tuple, list)):
-                logical |= set(x.member for x in v if isinstance(x, EnumVal))
+    oper_enum = A.repo.resolve_expr_static(op_f.module, ast.parse('Operator', mode='eval').body)
+    if oper_enum is None or not op_f.params[1:]:
+        raise AnalysisError('VmMath.op: Operator enum / parameter not found')
+    pname = op_f.params[1]
+    for member in oper_enum.enum_members():
+        reached = A.calls_under(op_f, {pname: EnumVal('Operator', member)})
+        if 'VmMath.logical_op' in reached and 'VmMath.bin_op' not in reached:
+            logical.add(member)
     return dict(prec=prec, doop=doop, isbin=isbin, cmp_set=cmp_set,
                 fn_table=fn_table, logical=logical, prec_f=prec_f,
                 isbin_f=isbin_f, doop_f=doop_f, vm=vm, lex=lex)
